@@ -181,3 +181,7 @@ def run(ctx):
         ctx.check(len(dr) == 1 and pc[0] not in ta.reachable(0, cut_blocks=dr), "C02-R2", "token-bytes-from-decode_raw",
                   "the bytes committed are produced by the single decode_raw(&[tok_id]) that dominates the commit",
                   "TokenParser::apply_token no longer derives the committed bytes from one decode_raw call", site=ta.where(pc[0]))
+    # ---- R6 (adopted from C10-R3): the residual tries of the slicer are built from "this slice minus one child" /
+    # "minus all children" masks — a token left out of them is neither OR-ed in nor walked, while its bytes stay acceptable
+    ctx.import_clauses("c10", "C10-R3", ["residual-masks:", "tries-filtered-from-masks"], "C02-R6")
+
